@@ -223,6 +223,30 @@ func c03(c *Ctx) {
 	}
 	c.ruleWhoMayCall("C03.2/commit-ack-sites", "commitWHub.DoneUpto", callTo(whDoneUpto+"@commitWHub"),
 		[]string{storePkg + "OpenWith", storeT + "mayCommit", storeT + "sync"}, 3)
+	// what is acknowledged as committed is what was just made the commit frontier: waiters on commitWHub return to
+	// their callers "your tx is committed"; acknowledging a higher id reports transactions that are only precommitted
+	for _, name := range []string{storeT + "mayCommit", storeT + "sync"} {
+		if f := c.mustFn("C03.2/commit-ack-value", name); f != nil {
+			var frontier []string
+			for _, st := range sites(f, storeTo("ImmuStore.committedTxID")) {
+				frontier = append(frontier, desc(st.(*ssa.Store).Val))
+			}
+			for i, in := range sites(f, callTo(whDoneUpto+"@commitWHub")) {
+				a := desc(callOf(in).Args[1])
+				okv := false
+				for _, fr := range frontier {
+					if fr == a {
+						okv = true
+					}
+				}
+				if hasFieldSuffix(a, "committedTxID") {
+					okv = true
+				}
+				c.check(okv, "C03.2/commit-ack-value", fmt.Sprintf("%s:commitWHub.DoneUpto#%d", fnName(f), i), c.pos(in.Pos()), "acknowledges the value stored into committedTxID ("+a+")",
+					"commit waiters are released up to "+a+" while the commit frontier was moved to "+strings.Join(frontier, ",")+": transactions without a commit-log entry are reported as committed")
+			}
+		}
+	}
 	c.ruleWhoMayCall("C03.2/durable-ack-sites", "durablePrecommitWHub.DoneUpto", callTo(whDoneUpto+"@durablePrecommitWHub"),
 		[]string{storePkg + "OpenWith", storeT + "performPrecommit", storeT + "sync"}, 3)
 	// in performPrecommit the durable ack without fsync is only given in unsynced mode
